@@ -224,7 +224,8 @@ def lean_phase(prop_id, modules, kernels=(), tier="quick"):
             hits = forbidden_token_scan()
             if hits:
                 raise InfraError("forbidden tokens in Lean sources:\n" + "\n".join(hits))
-            rc, out = _run(["lake", "env", "lean", "--run", "Audit.lean"] + modules, cwd=LEAN_DIR)
+            audit_mods = list(modules) + [f"NpsVerif.Gen.Bridge.{k}" for k in kernels]
+            rc, out = _run(["lake", "env", "lean", "--run", "Audit.lean"] + audit_mods, cwd=LEAN_DIR)
             if rc != 0:
                 raise InfraError("axiom audit failed:\n" + out[-3000:])
             for line in out.splitlines():
@@ -233,6 +234,8 @@ def lean_phase(prop_id, modules, kernels=(), tier="quick"):
                     continue
                 name = m.group(2)
                 if not (name.startswith("Props.") or name.startswith("Gen.Bridge.")):
+                    continue
+                if re.search(r"\.(eq_\d+|eq_def|match_\d+.*|proof_\d+|_simp_\d+|induct.*|_unary.*|_sunfold|eq_unfold|congr_simp)$", name):
                     continue
                 axs = [a for a in m.group(3).split(",") if a]
                 st.theorems[name] = axs
